@@ -716,6 +716,8 @@ func (fr *Frame) applyContract(c ssa.CallInstruction, ci calleeInfo, st *State, 
 		fe.assumedCallees[ci.name+" (assumed library contract)"] = true
 	} else if fc.Trusted {
 		fe.assumedCallees[ci.name+" (trusted contract, body not verified)"] = true
+	} else if strings.HasPrefix(fc.Name, "funcval ") {
+		fe.assumedCallees[fc.Name+" in "+fc.Pkg+" (assumed contract of a function value: whatever is stored there is not checked against it)"] = true
 	}
 	return rets
 }
